@@ -18,7 +18,7 @@ META = {
     "level": "model_checking",
     "technique": "TLA+ spec SchemaChange.tla: one table (columns with type tinyint/smallint/int/varchar(n) and collation, NULL/NOT NULL, default; primary key; unique and plain indexes; rows) under 12 statement kinds with preconditions and value conversion; invariants and the action property DataPreserved model-checked by TLC on a bounded model; random TLC behaviours of depth 14 (SQL text built by the specification) replayed on the engine with rows, SHOW FULL COLUMNS, DESCRIBE, information_schema.COLUMNS/STATISTICS, SHOW INDEX and key look-ups compared for equality with TLC's post-state after every statement",
     "text": "The specification keeps one table: an ordered list of columns (name, type among tinyint/smallint/int/varchar(2|4|8) with collation utf8mb4_0900_bin or _ai_ci, nullability, optional literal default), a primary key, named unique/non-unique indexes and the stored rows. ADD COLUMN (FIRST/AFTER/last) gives existing rows the default, NULL, or the implicit default 0/'' of a NOT NULL column; DROP COLUMN removes the value and the column from non-unique indexes; RENAME COLUMN follows the column through keys; MODIFY COLUMN converts every stored value (integer ranges, integer<->decimal text, varchar length) and moves the column, and fails without effect when a value is not representable, a NULL meets NOT NULL, or a key would collide; a collation change keeps the data; ADD PRIMARY KEY fails on NULLs or duplicates and makes the columns NOT NULL; CREATE UNIQUE INDEX fails on duplicates; RENAME TABLE moves everything. TLC checks on a bounded model that every successful ALTER keeps the row count and, column by column (followed through renames and moves), the converted old values, that an added column holds its default, and that a failed statement changes nothing; it then emits random behaviours which are executed on a real engine, where after every statement the reply class, the table contents as a bag, the column list (order, type text, NULL flag, key flag, default, collation) through SHOW FULL COLUMNS, DESCRIBE and information_schema.COLUMNS, the index list through SHOW INDEX and information_schema.STATISTICS, and index look-ups are compared for equality with the post-state TLC printed.",
-    "note": "decimal columns are not modelled; one table per behaviour; strings over [0-9A-Za-z-]; statements that trigger a recorded defect which silently corrupts secondary indexes (RENAME TABLE, MODIFY/RENAME of a primary-key column, DROP PRIMARY KEY of a table with secondary indexes; in-place ADD COLUMN before an indexed column; rewriting MODIFY that changes the type of an indexed column) are not drawn at random but each is replayed from a witness behaviour on every run; outcomes that depend on byte-wise vs _ai_ci key comparison (recorded under C13/C14), DROP COLUMN of a key column and RENAME of a composite-key column (recorded under C43), dropping the only column and MODIFY .. NULL of a key column are not generated; SHOW COLUMNS prints a string default as a quoted literal and appends COLLATE to the type text of a non-default collation: both are read as their MySQL meaning; the Key flag of a keyless table with a NOT NULL unique index is unjudged; trusted: TLC, the 7 observation queries and the normalisers in harness/cmd/c21",
+    "note": "decimal columns are not modelled; one table per behaviour; strings over [0-9A-Za-z-]; the statement shapes that used to trigger recorded index-corrupting defects (RENAME TABLE / MODIFY / RENAME of a key column / DROP PRIMARY KEY with secondary indexes, in-place ADD COLUMN before an indexed column, rewriting MODIFY with a type change under an index, outcomes that depend on _ai_ci key comparison, RENAME of a composite-key column) are drawn at random again since the defects were repaired (spec: Steered = {}); the witness behaviour of every finding, open or fixed, is replayed on every run; DROP COLUMN of a key column (recorded under C43), dropping the only column and MODIFY .. NULL of a key column are not generated; SHOW COLUMNS prints a string default as a quoted literal and appends COLLATE to the type text of a non-default collation: both are read as their MySQL meaning; the Key flag of a keyless table with a NOT NULL unique index is unjudged; trusted: TLC, the 7 observation queries and the normalisers in harness/cmd/c21",
     "design_ref": "§7 C21",
 }
 
@@ -103,7 +103,7 @@ WITNESS_OF = {
     5: "C21-add-column-before-indexed-column", 6: "C21-modify-rewrite-keeps-old-type-in-index",
     7: "C21-unique-index-duplicate-test-uses-leading-column-types", 8: "C21-unique-index-duplicate-test-uses-leading-column-types",
     9: "C21-modify-converts-empty-string-to-zero", 10: "C21-drop-column-before-pk-with-secondary-index-fails",
-    11: "C21-show-full-columns-collation-constant",
+    11: "C21-show-full-columns-collation-constant", 12: "C21-inplace-modify-does-not-recheck-keys",
 }
 
 
